@@ -107,7 +107,7 @@ def run(c):
                 e["tr"] = tr
                 if e["e"] == "JsonDetail":
                     details.setdefault(e["struct"], []).append(e)
-                else:
+                elif e["e"] != "Op":
                     tr += 1
                 fh.write(json.dumps(e) + "\n")
         structs = [e for e in allev if e["e"] == "Struct" and e["json"]]
